@@ -1,6 +1,6 @@
 (* C07 - The three output forms of a reader describe the same blocks.
    Only statements here; every proof is one [exact] of a lemma from Proofs/. *)
-From PdV Require Import Reader Json ReaderProofs.
+From PdV Require Import Reader Json ReaderProofs FormsAgree.
 
 (* 'jsondata' = 'pdtable' with every table replaced by the JSON rendering of the SAME parse
    (CtJson p stands for to_json_serializable of the precursor p, rendered by json_of_ptable);
@@ -28,3 +28,23 @@ Theorem C07_grid_same_types :
     map ev_shape (flat_map (grid_event filter) bs) = map ev_shape evs.
 Proof. exact deliver_grid_shape. Qed.
 Print Assumptions C07_grid_same_types.
+
+(* each 'jsondata' table equals table_to_json_data of the corresponding 'pdtable' table: for every
+   table block p that the 'pdtable' form delivers (the 'jsondata' form delivers CtJson p at the same
+   position, C07_json_same_blocks), converting the frame built from p - its values seen through
+   list(df[col]), Json.frame_cols - with table_to_json_data gives exactly the JsonData rendered
+   from the precursor.  Two distinct routes through the code, equal for every input, every filter
+   and every fixer whose replacement values are ordinary column values (the stock ones are:
+   C07_stock_fixer). *)
+Theorem C07_json_is_table_to_json :
+  forall render_dt float_repr parse_float parse_dt cfg filter raising bs hist evs fin t i p,
+    (forall vt, stock_value (fix_value cfg vt)) ->
+    deliver parse_float parse_dt cfg FPd filter raising bs hist = (evs, fin) ->
+    In (EBlock t i (CtTable p)) evs ->
+    table_to_json (p_name p) (p_dests p) (frame_cols render_dt float_repr p) = Some (json_of_ptable render_dt p).
+Proof. exact forms_agree. Qed.
+Print Assumptions C07_json_is_table_to_json.
+
+Theorem C07_stock_fixer : forall vt, stock_value (stock_fix vt).
+Proof. exact stock_fix_stock. Qed.
+Print Assumptions C07_stock_fixer.
